@@ -53,9 +53,9 @@ theorem drop_replicate_append (n s : Nat) (c : Cell) (R : List Cell) (hs : s < n
   rfl
 
 theorem drop_replicate_append_all (n : Nat) (c : Cell) (R : List Cell) : (List.replicate n c ++ R).drop n = R := by
-  have : n = (List.replicate n c).length := by simp
-  conv => lhs; rw [this]
-  exact List.drop_left
+  have := @List.drop_left _ (List.replicate n c) R
+  rw [List.length_replicate] at this
+  exact this
 
 /-- the run-extension loop on a constant run followed by a value that is not identical to it -/
 theorem extendRun_replicate_next (c : Cell) (hsc : c.isScalar = true) (hid : SelfIdentical c) (n : Nat) (R : List Cell)
@@ -145,9 +145,8 @@ theorem arithRun_drop_append (a d : Int) (n k : Nat) (R : List Cell) (hk : k < n
   rfl
 
 theorem arithRun_drop_append_all (a d : Int) (n : Nat) (R : List Cell) : (arithRun a d n ++ R).drop n = R := by
-  have : n = (arithRun a d n).length := by rw [arithRun_length]
-  conv => lhs; rw [this]
-  exact List.drop_left
+  have := @List.drop_left _ (arithRun a d n) R
+  rwa [arithRun_length] at this
 
 /-- the run-extension loop on an arithmetic run followed by a value that does not continue it -/
 theorem extendRun_run_next {a d : Int} {n : Nat} (h : RunHyp a d n) (R : List Cell)
@@ -230,15 +229,17 @@ theorem convertToRange_irun_of_next (opt : POpt) (hc : opt.compress = true) {a d
       intro j hj
       have : (arithRun a d n ++ R).getD j (.flag .N) = Cell.int .i (a + (j : Int) * d) := by
         have hj' : j < (arithRun a d n).length := by rw [arithRun_length]; exact hj
-        simp [List.getD, List.getElem?_append_left hj', arithRun, hj]
+        have e : (arithRun a d n ++ R)[j]? = some (Cell.int .i (a + (j : Int) * d)) := by
+          rw [List.getElem?_append_left hj']; simp [arithRun, hj]
+        simp [List.getD, e]
       rw [this]; rfl) (n + R.length + 1) 0 0 m (by omega) hcc
     omega
   have h0 : arithRun a d n ++ R = Cell.int .i a :: ((arithRun a d n).drop 1 ++ R) := by
     have := arithRun_drop_append a d n 0 R (by omega)
     simpa using this
-  have hd1 : (arithRun a d n ++ R).drop 1 = Cell.int .i (a + d) :: ((arithRun a d n).drop 2 ++ R) := by
-    have := arithRun_drop_append a d n 1 R (by omega)
-    simpa using this
+  have hd1 : (arithRun a d n).drop 1 ++ R = Cell.int .i (a + d) :: ((arithRun a d n).drop 2 ++ R) := by
+    have := arithRun_drop a d n 1 (by omega)
+    rw [this]; simp
   have hnot : ¬ (n + R.length < rangeMin) := by unfold rangeMin; omega
   have hnotm : ¬ (m < rangeMin) := by unfold rangeMin; omega
   unfold convertToRange
